@@ -99,6 +99,11 @@ def stepLockup (st : State) (op : String) (args : List String) : State × String
     match t.toInt?, id.toNat?, parseCoins c with
     | some t, some id, some c => resOk' (msgForceUnlock t st o id c) st
     | _, _, _ => (st, "bad-op")
+  -- CL keeper: shares minted into the module account and locked (CreateLockNoSend); `u` = 1: begins unlocking at once
+  | "cllock", [t, o, d, c, u] =>
+    match t.toInt?, d.toInt?, parseCoins c with
+    | some t, some d, some [(dn, a)] => resOk (clLock t st o dn a d (u = "1")) st true
+    | _, _, _ => (st, "bad-op")
   -- real ExportGenesis, lockup store wiped, real InitGenesis (Model/LockupGenesis.lean)
   | "exportimport", [] =>
     match exportImport st with
